@@ -297,6 +297,10 @@ def run(chk, tier):
                                 item, model = make_item(derive, level, named, fields, level)
                                 reqs.append({"derive": derive, "item": item})
                                 metas.append((item, model, "%s/%s" % (derive, level)))
+                                if n == 1 and level == "struct":
+                                    # the same item as a `macro_rules!` expansion hands it over (field types in None-delimited groups)
+                                    reqs.append({"derive": derive, "item": item, "group": True})
+                                    metas.append((item + "  [field types grouped]", model, "%s/%s/grouped-types" % (derive, level)))
                                 if n == 1 and fields[0].generic and named != "raw":
                                     item, model = make_item(derive, level, named, fields, level, own_where=True)
                                     reqs.append({"derive": derive, "item": item})
